@@ -334,11 +334,13 @@ class Exec(object):
         return cache[key]
 
     workdir = "/tmp/pyvc_q"
-    quick_timeout_ms = 150
+    quick_timeout_ms = 100
 
-    def quick(self, st, fact):
+    def quick(self, st, fact, sticky_fail=False):
         """In-process, time-boxed entailment test used to prune type-dispatch noise.  Facts that mention
-        string operations are not attempted (z3's in-process string solver is not trusted to return)."""
+        string operations are not attempted (z3's in-process string solver is not trusted to return).
+        A fact proved under some path condition holds under every extension of it (monotone cache); with
+        sticky_fail a fact that failed once is not tried again (aliasing / type facts rarely depend on the path)."""
         from . import solve
         f = simp(fact)
         if z3.is_true(f):
@@ -348,9 +350,21 @@ class Exec(object):
         if not getattr(self, "use_quick", True):
             return False
         cache = self.__dict__.setdefault("_quick_cache", {})
-        key = (tuple(c.get_id() for c in st.conj), f.get_id())
+        ids = tuple(c.get_id() for c in st.conj)
+        key = (ids, f.get_id())
         if key in cache:
             return cache[key]
+        mono = self.__dict__.setdefault("_quick_mono", {})
+        ent = mono.get(f.get_id())
+        if ent is not None:
+            cur = set(ids)
+            for pset in ent[0]:
+                if pset <= cur:
+                    cache[key] = True
+                    return True
+            if sticky_fail and ent[1][0]:
+                cache[key] = False
+                return False
         coi = self.__dict__.setdefault("_coi_cache", {})
         sc = self.__dict__.setdefault("_strop_cache", {})
         if _has_string_ops(f, sc):
@@ -365,19 +379,32 @@ class Exec(object):
         # hypotheses that use string operations are dropped (sound: fewer hypotheses)
         hyps = [c for c in st.conj if not _has_string_ops(c, sc)]
         roots = hyps + [f]
-        asm = solve.relevant_assumptions(self.assumptions, roots, coi)
-        asm = [a for a in asm if not _has_string_ops(a, sc) and not z3.is_quantifier(a)]
-        s = z3.Solver()
+        s = self.__dict__.get("_qsolver")
+        if s is None:
+            s = self._qsolver = z3.Solver()
+            self._qsolver_n = 0
         s.set("timeout", self.quick_timeout_ms)
-        for a_ in asm:
-            s.add(a_)
+        # all (string-free, quantifier-free) assumptions are asserted once, incrementally: they are globally valid
+        # facts (definitions of fresh names, callee postconditions guarded by their path conditions)
+        while self._qsolver_n < len(self.assumptions):
+            a_ = self.assumptions[self._qsolver_n]
+            self._qsolver_n += 1
+            if not _has_string_ops(a_, sc) and not z3.is_quantifier(a_):
+                s.add(a_)
+        s.push()
         for c in hyps:
             s.add(c)
         s.add(z3.Not(f))
         r = s.check() == z3.unsat
+        s.pop()
         self.__dict__.setdefault("_keepalive", []).append((roots, f))
         cache[key] = r
         fails[f.get_id()] = (nf, ns + 1) if r else (nf + 1, ns)
+        ent = mono.setdefault(f.get_id(), ([], [0]))
+        if r:
+            ent[0].append(frozenset(ids))
+        else:
+            ent[1][0] = 1
         self.quick_queries = getattr(self, "quick_queries", 0) + 1
         return r
 
@@ -1620,13 +1647,19 @@ class Exec(object):
                 pvals = list(getattr(self, "protected_vals", []))
             else:
                 pvals = [self.eval_spec(pn, pre.fork(), fid, spec_unit, pre) for pn in c.preserves]
+            # preserved objects: stated as facts about the fresh heap (not as a store chain, which would make every
+            # later read compare its reference against each preserved one)
+            seen_p = set()
             for pv in pvals:
-                r = rval(pv)
-                kept = Heap(z3.Store(nh.DV, r, BI.heap_select(self, st, st.heap.DV, r)),
-                            z3.Store(nh.DP, r, BI.heap_select(self, st, st.heap.DP, r)),
-                            z3.Store(nh.LS, r, BI.heap_select(self, st, st.heap.LS, r)))
+                r = simp(rval(pv))
+                if r.get_id() in seen_p:
+                    continue
+                seen_p.add(r.get_id())
                 isr = simp(is_Ref(pv))
-                nh = kept if (z3.is_true(isr) or self.quick(st, isr)) else Heap.ite(isr, kept, nh)
+                fact = z3.And(z3.Select(nh.DV, r) == BI.heap_select(self, st, st.heap.DV, r),
+                              z3.Select(nh.DP, r) == BI.heap_select(self, st, st.heap.DP, r),
+                              z3.Select(nh.LS, r) == BI.heap_select(self, st, st.heap.LS, r))
+                self.assume(st, fact if z3.is_true(isr) else z3.Implies(isr, fact))
             st.heap = nh
         elif c.modifies_ast:
             st.heap = self.havoc_refs(st.heap, c.modifies_ast, pre, fid, spec_unit)
@@ -1651,7 +1684,10 @@ class Exec(object):
             if isinstance(n, ast.Name) and n.id == "__heap__":
                 newg[g] = pre.heap
                 continue
-            v = self.eval_spec(n, pre.fork(), fid, spec_unit, pre, extra={"result": result})
+            gx = {"retval": result}
+            if "result" not in bound:
+                gx["result"] = result
+            v = self.eval_spec(n, pre.fork(), fid, spec_unit, pre, extra=gx)
             newg[g] = BI.unbox_like(v, st.ghost.get(g), pre)
         if unit is not None and not c.pure:
             # a contracted *unit* may change any ghost variable; its ensures say how (externals only do
